@@ -1,2 +1,2 @@
-/* fid: variadic-too-few-args (fixed e3588ce); msg: not enough arguments for function call */
+/* fid: variadic-too-few-args (fixed 49541f0); msg: not enough arguments for function call */
 int g(int, int, ...); int f(void){ return g(1); }
